@@ -249,6 +249,77 @@ theorem findChildren_sub (ctx : NSCtx) (ns tag : String) (l out : List Node)
       have := ih out h x hx
       exact ⟨by simp [this.1], this.2⟩
 
+theorem entriesT_some (inp : Input) (ctx : NSCtx) (resp : Node) (es : List SP.Entry)
+    (h : entriesT inp ctx resp = some es) :
+    ∃ cin encs plains, subContext ctx resp.attrs = some cin ∧
+      findChildren cin samlNS "EncryptedAssertion" resp.children = some encs ∧
+      findChildren cin samlNS "Assertion" resp.children = some plains ∧
+      es = encs.map (encEntry inp) ++ plains.map (plainEntry inp cin) := by
+  unfold entriesT at h
+  split at h
+  · simp at h
+  · rename_i cin hcin
+    split at h
+    · rename_i encs plains he hp
+      simp only [Option.some.injEq] at h
+      exact ⟨cin, encs, plains, hcin, he, hp, h.symm⟩
+    · simp at h
+
+/-- where a returned assertion can come from, relative to the Response element `resp` -/
+def FromResponse (inp : Input) (ctx : NSCtx) (resp : Node) (a : SP.AssertionS) (outerValid : Prop) : Prop :=
+  ∃ cin, subContext ctx resp.attrs = some cin ∧
+    ((∃ el ∈ resp.children, el.tag = "Assertion" ∧ inp.aview el.nid = some a ∧
+        (sigStateT inp cin el = .valid ∨ outerValid)) ∨
+     (∃ enc ∈ resp.children, enc.tag = "EncryptedAssertion" ∧ ∃ p, inp.plain enc.nid = some p ∧
+        inp.aview p.nid = some a ∧ (sigStateT inp defaultCtx p = .valid ∨ outerValid)))
+
+/-- the struct-level validator over the entries of a Response element: an accepted assertion is the
+    view of an assertion child (or decrypted child), signed itself unless the requirement was lifted -/
+theorem response_sound (inp : Input) (ctx : NSCtx) (resp : Node) (es : List SP.Entry) (hdr : SP.ResponseS)
+    (need : SP.Need) (respSig : SP.SigState) (a : SP.AssertionS)
+    (hes : entriesT inp ctx resp = some es)
+    (h : SP.parseResponse inp.cfg inp.now inp.ids inp.url need respSig { hdr with entries := es } = .ok a) :
+    FromResponse inp ctx resp a (SP.needAfter need respSig = .notRequired) := by
+  obtain ⟨cin, encs, plains, hcin, henc, hpl, rfl⟩ := entriesT_some inp ctx resp es hes
+  refine ⟨cin, hcin, ?_⟩
+  rw [SP.accept_iff] at h
+  obtain ⟨_, pre, e, post, hl, hg, ha, _⟩ := h
+  have hmem : e ∈ encs.map (encEntry inp) ++ plains.map (plainEntry inp cin) := by
+    have : e ∈ SP.ordered (encs.map (encEntry inp) ++ plains.map (plainEntry inp cin)) := by
+      rw [hl]; simp
+    unfold SP.ordered at this
+    simp only [List.mem_append, List.mem_filter] at this
+    rcases this with h | h <;> simpa using h.1
+  have hsig : e.sig = .valid ∨ SP.needAfter need respSig = .notRequired := by
+    cases hn : SP.needAfter need respSig with
+    | notRequired => exact Or.inr rfl
+    | required => exact Or.inl (hg.signed hn)
+  simp only [List.mem_append, List.mem_map] at hmem
+  rcases hmem with ⟨enc, henc', rfl⟩ | ⟨el, hel, rfl⟩
+  · right
+    obtain ⟨hm, _, ht⟩ := findChildren_sub _ _ _ _ _ henc enc henc'
+    refine ⟨enc, hm, ht, ?_⟩
+    cases hp : inp.plain enc.nid with
+    | none => have := hg.decrypts; simp [encEntry, hp] at this
+    | some p =>
+      cases hav : inp.aview p.nid with
+      | none => have := hg.decrypts; simp [encEntry, hp, hav] at this
+      | some a' =>
+        simp only [encEntry, hp, hav] at ha hsig
+        exact ⟨p, rfl, by rw [← ha]; exact hav, hsig⟩
+  · left
+    obtain ⟨hm, _, ht⟩ := findChildren_sub _ _ _ _ _ hpl el hel
+    refine ⟨el, hm, ht, ?_⟩
+    cases hav : inp.aview el.nid with
+    | none => have := hg.decrypts; simp [plainEntry, hav] at this
+    | some a' =>
+      simp only [plainEntry, hav] at ha hsig
+      exact ⟨by rw [← ha], hsig⟩
+
+theorem needAfter_required_iff (s : SP.SigState) : SP.needAfter .required s = .notRequired ↔ s = .valid := by
+  unfold SP.needAfter
+  cases s <;> simp
+
 /-- **C01 (soundness)**: if the SP returns `a`, then `a` is the struct view of an element `E` that is
     a `saml:Assertion` child of the root or the decrypted content of a `saml:EncryptedAssertion` child of
     the root, and `validateSignature` passed on `E` itself or on the root. -/
@@ -271,49 +342,87 @@ theorem C01_sound (inp : Input) (a : SP.AssertionS) (h : parseT inp = .ok a) :
       · simp at h
       · rename_i hdr hhdr
         split at h
+        · rename_i es hes
+          obtain ⟨cin, hcin, hcase⟩ := response_sound inp defaultCtx inp.root es hdr .required _ a hes h
+          refine ⟨by simpa using hwf, cin, hcin, ?_⟩
+          simp only [needAfter_required_iff] at hcase
+          exact hcase
         · simp at h
-        · rename_i cin hcin
+
+/-- **C01 (soundness, artifact binding)**: an assertion returned by `ParseXMLArtifactResponse` is the
+    view of an assertion child (or decrypted child) of the one `samlp:Response` child of the one
+    `samlp:ArtifactResponse` in the one SOAP `Body`, and `validateSignature` passed on the assertion, on
+    that Response, or on that ArtifactResponse. -/
+theorem C01_sound_artifact (inp : Input) (resolveId : String) (a : SP.AssertionS)
+    (h : parseArtifactT inp resolveId = .ok a) :
+    ∃ cRoot body cBody art cArt resp,
+      subContext defaultCtx inp.root.attrs = some cRoot ∧
+      findChildren cRoot soapNS "Body" inp.root.children = some [body] ∧
+      subContext cRoot body.attrs = some cBody ∧
+      findChildren cBody samlpNS "ArtifactResponse" body.children = some [art] ∧
+      subContext cBody art.attrs = some cArt ∧
+      findChildren cArt samlpNS "Response" art.children = some [resp] ∧
+      FromResponse inp cArt resp a (sigStateT inp cArt resp = .valid ∨ sigStateT inp cBody art = .valid) := by
+  unfold parseArtifactT at h
+  split at h
+  · simp at h
+  · split at h
+    · simp at h
+    · split at h
+      · simp at h
+      · split at h
+        · simp at h
+        · rename_i cRoot hcRoot
           split at h
-          · rename_i encs plains henc hpl
-            refine ⟨by simpa using hwf, cin, hcin, ?_⟩
-            rw [SP.accept_iff] at h
-            obtain ⟨_, pre, e, post, hl, hg, ha, _⟩ := h
-            have hmem : e ∈ encs.map (encEntry inp) ++ plains.map (plainEntry inp cin) := by
-              have : e ∈ SP.ordered (encs.map (encEntry inp) ++ plains.map (plainEntry inp cin)) := by
-                rw [hl]; simp
-              unfold SP.ordered at this
-              simp only [List.mem_append, List.mem_filter] at this
-              rcases this with h | h <;> simpa using h.1
-            -- signature: the entry's own, or the Response's
-            have hsig : e.sig = .valid ∨ sigStateT inp defaultCtx inp.root = .valid := by
-              by_cases hr : sigStateT inp defaultCtx inp.root = .valid
-              · exact Or.inr hr
-              · left
-                apply hg.signed
-                unfold SP.needAfter
-                simp [hr]
-            simp only [List.mem_append, List.mem_map] at hmem
-            rcases hmem with ⟨enc, henc', rfl⟩ | ⟨el, hel, rfl⟩
-            · right
-              obtain ⟨hm, _, ht⟩ := findChildren_sub _ _ _ _ _ henc enc henc'
-              refine ⟨enc, hm, ht, ?_⟩
-              cases hp : inp.plain enc.nid with
-              | none => have := hg.decrypts; simp [encEntry, hp] at this
-              | some p =>
-                cases hav : inp.aview p.nid with
-                | none => have := hg.decrypts; simp [encEntry, hp, hav] at this
-                | some a' =>
-                  simp only [encEntry, hp, hav] at ha hsig
-                  exact ⟨p, rfl, by rw [← ha]; exact hav, hsig⟩
-            · left
-              obtain ⟨hm, _, ht⟩ := findChildren_sub _ _ _ _ _ hpl el hel
-              refine ⟨el, hm, ht, ?_⟩
-              cases hav : inp.aview el.nid with
-              | none => have := hg.decrypts; simp [plainEntry, hav] at this
-              | some a' =>
-                simp only [plainEntry, hav] at ha hsig
-                exact ⟨by rw [← ha], hsig⟩
           · simp at h
+          · rename_i body hbody
+            split at h
+            · simp at h
+            · rename_i cBody hcBody
+              split at h
+              · simp at h
+              · rename_i art hart
+                split at h
+                · simp at h
+                · rename_i irt ii iss st harv
+                  simp only at h
+                  rw [SP.artifact_accept_iff] at h
+                  obtain ⟨_, _, _, _, _, rs, r, hresp, hparse⟩ := h
+                  -- unpack the Response lookup
+                  split at hresp
+                  · simp at hresp
+                  · rename_i cArt hcArt
+                    split at hresp
+                    · simp at hresp
+                    · rename_i resp hone
+                      split at hresp
+                      · rename_i hdr es hrv hes
+                        simp only [Option.some.injEq, Prod.mk.injEq] at hresp
+                        obtain ⟨hrs, hr⟩ := hresp
+                        subst hrs; subst hr
+                        have hb : findChildren cRoot soapNS "Body" inp.root.children = some [body] := by
+                          unfold exactlyOne at hbody; split at hbody <;> simp_all
+                        have ha' : findChildren cBody samlpNS "ArtifactResponse" body.children = some [art] := by
+                          unfold exactlyOne at hart; split at hart <;> simp_all
+                        have hr' : findChildren cArt samlpNS "Response" art.children = some [resp] := by
+                          unfold exactlyOne at hone; split at hone <;> simp_all
+                        refine ⟨cRoot, body, cBody, art, cArt, resp, hcRoot, hb, hcBody, ha', hcArt, hr', ?_⟩
+                        obtain ⟨cin, hcin, hcase⟩ := response_sound inp cArt resp es hdr _ _ a hes hparse
+                        refine ⟨cin, hcin, ?_⟩
+                        have hlift : SP.needAfter (if sigStateT inp cBody art = .valid then .notRequired else .required)
+                            (sigStateT inp cArt resp) = .notRequired →
+                            (sigStateT inp cArt resp = .valid ∨ sigStateT inp cBody art = .valid) := by
+                          intro hn
+                          by_cases hv : sigStateT inp cBody art = .valid
+                          · exact Or.inr hv
+                          · simp only [hv, if_false] at hn
+                            exact Or.inl ((needAfter_required_iff _).mp hn)
+                        rcases hcase with ⟨el, hm, ht, hav, hs | hs⟩ | ⟨enc, hm, ht, p, hp, hav, hs | hs⟩
+                        · exact Or.inl ⟨el, hm, ht, hav, Or.inl hs⟩
+                        · exact Or.inl ⟨el, hm, ht, hav, Or.inr (hlift hs)⟩
+                        · exact Or.inr ⟨enc, hm, ht, p, hp, hav, Or.inl hs⟩
+                        · exact Or.inr ⟨enc, hm, ht, p, hp, hav, Or.inr (hlift hs)⟩
+                      · simp at hresp
 
 /-! ### no forgery -/
 
